@@ -341,7 +341,7 @@ func C14(r *vf.Run) {
 	}
 
 	if r.Phase("twin-runs") {
-		n := r.N(1920, 768000)
+		n := r.N(2880, 768000)
 		chunks := 96
 		r.Parallel(min(ncpu, 8), chunks, func(wi, ci int) {
 			A, B := getSysRig(), getSysRig()
@@ -360,14 +360,48 @@ func C14(r *vf.Run) {
 				stale := g.Intn(3) == 0
 				budget := uint64(50 + g.Intn(500))
 				target := g.U32() & 0xFFFFFF
+				// half of the runs end at an address the program really reaches (possibly the start), some
+				// with callbacks that act on the CPU and with an interrupt already requested at entry
+				var plan []hookPlan
+				pendingAtEntry := 0
+				if g.Bool() {
+					md := img.Clone()
+					md.NoRdSet = true
+					B.load(s, stale, g, md)
+					var pcs []uint32
+					for j := 0; j < 40; j++ {
+						pcs = append(pcs, B.s.GetPC())
+						if pan := vf.Try(func() { B.s.CPU.Step() }); pan != nil || B.s.CPU.Stopped {
+							break
+						}
+					}
+					target = pcs[[]int{0, len(pcs) - 1, g.Intn(len(pcs)), g.Intn(len(pcs))}[g.Intn(4)]]
+					if g.Intn(3) == 0 {
+						for h := 1 + g.Intn(3); h > 0; h-- {
+							plan = append(plan, hookPlan{at: pcs[g.Intn(len(pcs))], kind: 1 + g.Intn(4), to: 0})
+						}
+						if g.Bool() { // the instruction just before the target raises an interrupt
+							for j := 1; j < len(pcs); j++ {
+								if pcs[j] == target {
+									plan = append(plan, hookPlan{at: pcs[j-1], kind: 1 + g.Intn(2)})
+									break
+								}
+							}
+						}
+					}
+					if g.Intn(4) == 0 {
+						pendingAtEntry = 1 + g.Intn(2)
+					}
+				}
 				det := func() interface{} {
-					return map[string]interface{}{"start": s.String(), "image_seed": img.Seed, "overlay_bytes": len(img.Ov), "budget": budget, "target": fmt.Sprintf("$%06x", target)}
+					return map[string]interface{}{"start": s.String(), "image_seed": img.Seed, "overlay_bytes": len(img.Ov), "budget": budget, "target": fmt.Sprintf("$%06x", target), "callbacks": fmt.Sprint(plan), "interrupt_pending_at_entry": pendingAtEntry}
 				}
 				// without logger
 				mb := img.Clone()
 				mb.NoRdSet = true
 				B.load(s, stale, g, mb)
 				B.s.Logger = nil
+				installHooks(&B.s.CPU, plan, pendingAtEntry, 0)
 				var panB interface{}
 				// single-step B to capture pre-step states for the line checks
 				var pres []ref.State
@@ -383,6 +417,7 @@ func C14(r *vf.Run) {
 					}
 					consumed += uint64(c)
 				}
+				B.s.CPU.OnPC = nil
 				if panB != nil {
 					continue
 				}
@@ -402,11 +437,22 @@ func C14(r *vf.Run) {
 					A.s.Logger = rw
 					kind = "reserver"
 				}
-				if pan := vf.Try(func() { A.s.RunUntil(target, budget) }); pan != nil {
-					r.Fail("logged-run-panics", fmt.Sprintf("RunUntil with a Logger panicked: %v", pan), det())
+				installHooks(&A.s.CPU, plan, pendingAtEntry, int(budget)+64)
+				ma.Limit = (int(budget) + 64) * 24
+				panA := vf.Try(func() { A.s.RunUntil(target, budget) })
+				ma.Limit = 0
+				A.s.CPU.OnPC = nil
+				if panA != nil {
+					r.Fail("logged-run-panics", fmt.Sprintf("RunUntil with a Logger panicked (or did not end): %v", panA), det())
 					continue
 				}
 				r.Eval(1)
+				if B.s.GetPC() == target {
+					w.cells["twin:ended-at-target"]++
+					if A.s.CPU.Interrupt > 1 || B.s.CPU.Interrupt > 1 {
+						w.cells["twin:ended-at-target-with-interrupt-pending"]++
+					}
+				}
 				sa, sb := absPrim(&A.s.CPU), absPrim(&B.s.CPU)
 				if d := diffState(sa, sb); len(d) > 0 || A.s.CPU.AllCycles != B.s.CPU.AllCycles {
 					r.Fail("logger-perturbs-execution", fmt.Sprintf("with Logger (%s): {%v} cycles=%d; without: {%v} cycles=%d; differing %v", kind, sa, A.s.CPU.AllCycles, sb, B.s.CPU.AllCycles, d), det())
@@ -416,8 +462,18 @@ func C14(r *vf.Run) {
 					r.Fail("logger-perturbs-memory", fmt.Sprintf("memory differs at $%06x between the logged and the unlogged run", a), det())
 					continue
 				}
+				if A.s.CPU.Interrupt != B.s.CPU.Interrupt {
+					r.Fail("logger-perturbs-execution", fmt.Sprintf("with Logger (%s) the interrupt request state on exit is %d, without it %d", kind, A.s.CPU.Interrupt, B.s.CPU.Interrupt), det())
+					continue
+				}
 				if len(cw.lines) != len(pres) {
 					r.Fail("trace-line-count", fmt.Sprintf("%d trace lines for %d loop iterations", len(cw.lines), len(pres)), det())
+					continue
+				}
+				if len(plan) > 0 || pendingAtEntry > 0 {
+					// lines next to interrupt entries and acting callbacks are not judged: only that tracing
+					// changed nothing
+					w.cells["twin:with-callbacks-or-interrupts"]++
 					continue
 				}
 				// the memory each line saw is the memory before that step: replay B's writes lazily
@@ -519,7 +575,7 @@ func C14(r *vf.Run) {
 		for op := 0; op < 256; op++ {
 			r.Require(fmt.Sprintf("line:op%02x:e0:mx0%s", op, map[bool]string{true: ":backward", false: ""}[ref.Table[op].Mode == ref.Rel8]))
 		}
-		for _, c := range []string{"twin:writer", "twin:reserver", "twin:cpualt", "line:opd0:e0:mx3:forward", "line:op80:e1:mx3:backward"} {
+		for _, c := range []string{"twin:writer", "twin:reserver", "twin:cpualt", "twin:ended-at-target-with-interrupt-pending", "twin:with-callbacks-or-interrupts", "line:opd0:e0:mx3:forward", "line:op80:e1:mx3:backward"} {
 			r.Require(c)
 		}
 	}
